@@ -196,6 +196,8 @@ func minimise(c *core.Ctx, cs *Case, v *violation) (*Case, *violation) {
 var minArgs = map[string]int{"set": 1, "newTA": 1, "newObj": 1, "dvSet": 2, "fromHex": 1, "setFromHex": 1, "put": 1, "every": 1, "some": 1, "forEach": 1, "find": 1,
 	"findIndex": 1, "findLast": 1, "findLastIndex": 1, "filter": 1, "map": 1, "reduce": 1, "reduceRight": 1, "sort": 0, "toSorted": 0, "define": 0}
 
+var violationsInWorker int
+
 func run(c *core.Ctx) core.Result {
 	cs := materialise(c)
 	keyB, _ := json.Marshal(cs)
@@ -221,7 +223,9 @@ func run(c *core.Ctx) core.Result {
 	}
 	v := out.viol
 	min := cs
-	if c.Index >= 0 {
+	violationsInWorker++
+	if c.Index >= 0 && violationsInWorker <= 12 {
+		// minimisation costs up to 200 re-executions; a worker that has already reported a dozen violations reports the rest unminimised
 		min, v = minimise(c, cs, v)
 	}
 	return core.Result{
